@@ -30,8 +30,13 @@ def cfg_standard(ctx: Any, code: str, n: int, mode: str = 'T', trim: bool = True
                      ante_trimming_status=trim, starting_board_count=boards)
     if automations is not None:
         cfg['automations'] = automations
-    if rake_d:
+    if rake_d > 0:
         cfg['rake'] = sym_rake(rake_d)
+    elif rake_d < 0:
+        # the library's own rake helper: 12.5 % capped at -rake_d chips
+        from functools import partial
+        from pokerkit.utilities import rake as pk_rake
+        cfg['rake'] = partial(pk_rake, percentage=0.125, cap=-rake_d)
     if ante_kind == 'uniform':
         cfg['antes'] = ctx.int('ante', 0, MAXCHIP)
     elif ante_kind == 'none':
